@@ -123,7 +123,9 @@ CHECKS["C06"] = dict(
     technique="Coq proof over R / generic NumOps + vm_compute correspondences + reference falsifier", design="5/C06")
 CHECKS["C07"] = dict(
     text="Theorem: every recurrence specification computes a reading from a state and the newest candle only, and the state's buffer never "
-         "exceeds the indicator's window whatever the history (all NumOps instances). The specs reproduce the implementation bit for bit "
+         "exceeds the indicator's window whatever the history (all NumOps instances); in the engine model, the loop of calculate() "
+         "instrumented with an invocation counter (proved to return the loop's own result) makes exactly k _calculate_reading "
+         "invocations after k candles are appended to a calculated leaf indicator, whatever the history length. The specs reproduce the implementation bit for bit "
          "(check_spec, run in C04-C06). Falsifier: executed-line counts (sys.monitoring) inside indicator/analysis/utils code for the "
          "same trailing appends after histories of 150/600(/2400) candles must be identical, for every kind, Hexitals and always-None readings.",
     note="Partial: CPU time is outside any Gallina model; the theorem bounds the state of the recurrence form, the tie to real execution "
